@@ -195,8 +195,10 @@ SetKeys ==
           Do([k |-> "SetKeys", i |-> 0, val |-> v, orch |-> o, ext |-> e, chain |-> c,
               txby   |-> IF variant = "wrongtx" THEN "a1" ELSE v,
               sigkey |-> IF variant = "wrongkey" THEN "e9" ELSE e,
-              sigseq |-> IF variant = "stale" THEN -1 ELSE 0,
-              sigval |-> IF variant = "wrongval" THEN (CHOOSE w \in Vals : w # v) ELSE v])
+              sigseq |-> IF variant \in {"stale", "toolstale"} THEN -1 ELSE 0,
+              sigval |-> IF variant = "wrongval" THEN (CHOOSE w \in Vals : w # v) ELSE v,
+              \* "tool": the signature is made by the operators' real key tool (keys-generator), "toolstale": the tool with an old sequence number
+              tool   |-> variant \in {"tool", "toolstale"}])
     /\ xw' = XwObserve(xw, hub')
 TxRefs(c) == {[t |-> "ss", n |-> x.n] : x \in hub.ch[c].ss} \cup {[t |-> "bat", tok |-> b.tok, n |-> b.n] : b \in hub.ch[c].bat}
                 \cup {[t |-> "ss", n |-> 9]}
